@@ -10,12 +10,12 @@
 namespace e1 {
 
 static const char* EVN[] = {"none", "connect-ok", "write-ok", "write-on-dead-conn", "write-complete-late", "read", "read-err", "read-eof", "shutdown-ok", "release", "app", "time",
-    "connect-refused", "connect-hang", "hs-rc", "hs-malformed", "hs-silent", "hs-close", "wr-fail", "wr-short", "tail-loss", "wr-deliver-only",
+    "connect-refused", "connect-hang", "hs-rc", "hs-malformed", "hs-silent", "hs-close", "wr-fail", "wr-short", "tail-loss", "wr-deliver-only", "wr-fail-late",
     "wr-noreply", "wr-delay", "wr-bclose-before", "wr-bclose-after", "rd-chunk", "rd-cut", "rd-loss", "shutdown-hang", "inject", "continue"};
 std::string Event::str() const {
     std::string s = EVN[k]; if (stream >= 0) s += " s" + std::to_string(stream);
     if (k == WR_FAIL || k == WR_SHORT || k == TAIL_LOSS || k == RD_CHUNK || k == RD_CUT) s += " k=" + std::to_string(a);
-    if (k == WR_FAIL || k == RD_CUT || k == RD_LOSS) s += e == 0 ? " eof" : e == 1 ? " reset" : " pipe";
+    if (k == WR_FAIL || k == RD_CUT || k == RD_LOSS || k == WR_FAIL_LATE) s += e == 0 ? " eof" : e == 1 ? " reset" : " pipe";
     return s;
 }
 static error_code err_of(int e) { return e == 0 ? error_code(asio::error::eof) : e == 1 ? error_code(asio::error::connection_reset) : error_code(asio::error::broken_pipe); }
@@ -143,7 +143,7 @@ void World::enabled(std::vector<Event>& ev) {
         }
         sim::Conn* c = net->conn_of(st);
         if (st->write_parked) {
-            if (st->write_delivered) add(late, Event::WRITE_COMPLETE_LATE, s);
+            if (st->write_delivered) { add(late, Event::WRITE_COMPLETE_LATE, s); if (fam & F_WR) add(variants, Event::WR_FAIL_LATE, s, 0, 1); }
             else if (c && c->dead) add(defaults, Event::WRITE_DEAD, s);
             else {
                 add(defaults, Event::WRITE_OK, s);
@@ -203,6 +203,7 @@ void World::apply(const Event& e) {
     case Event::WR_FAIL: net->deliver_to_broker(st, size_t(e.a)); net->complete_write(st, err_of(e.e), 0); net->kill_conn(cid, err_of(e.e)); break;
     case Event::WR_SHORT: net->deliver_to_broker(st, size_t(e.a)); net->complete_write(st, {}, size_t(e.a)); break;
     case Event::TAIL_LOSS: net->deliver_to_broker(st, size_t(e.a)); net->complete_write(st, {}, len); net->kill_conn(cid, asio::error::connection_reset); break;
+    case Event::WR_FAIL_LATE: net->complete_write(st, err_of(e.e), 0); net->kill_conn(cid, err_of(e.e)); break;
     case Event::WR_DELIVER_ONLY: net->deliver_to_broker(st, len); st->write_delivered = true; break;
     case Event::WR_NOREPLY: broker->set_behaviour(cid, bkr::B_NOREPLY); net->deliver_to_broker(st, len); net->complete_write(st, {}, len); break;
     case Event::WR_DELAY: broker->set_behaviour(cid, bkr::B_DELAY); net->deliver_to_broker(st, len); net->complete_write(st, {}, len); break;
@@ -232,6 +233,7 @@ static std::string action_str(const Action& a) {
 
 void World::on_op_complete(int id) {
     OpRec& o = ops[id];
+    o.read_at_done.clear(); for (auto& c : net->conns) o.read_at_done.push_back(c.bytes_b2c_read);
     o.completions++; o.t_done = now(); o.done_in_same_step = (o.step_init == step_no); o.wire_mark_done = broker->wire.size(); o.wlog_mark_done = net->wlog.size(); o.inside_initiation = (initiating_op == id); o.inside_other_handler = running_handler_of >= 0;
     tr("complete op" + std::to_string(id) + " ec=" + (o.ec ? o.ec.message() : "ok") + (o.rc >= 0 ? " rc=" + std::to_string(o.rc) : ""));
     if (o.completions == 1) {
